@@ -1,9 +1,15 @@
 package main
 
 import (
+	"bytes"
+	"context"
 	"fmt"
 	"math"
+	"math/rand"
+	"os"
+	"os/exec"
 	"sort"
+	"strconv"
 	"strings"
 	"time"
 
@@ -150,13 +156,132 @@ func rat3(p model3d.Coord3D) string {
 	return hlib.RatStr(p.X) + "," + hlib.RatStr(p.Y) + "," + hlib.RatStr(p.Z)
 }
 
+// ---- crash isolation.  The library panics inside its own worker goroutines
+// ("solid is true outside of bounds", "vertex not on edge", index out of range
+// after a bad edit); such a panic cannot be recovered and would take the whole
+// harness down without naming the case.  The randomised kinds that run such
+// code are therefore executed in child processes (this binary re-executed with
+// C02_CHILD=<kind>:<seed>,<seed>,...), 25 cases per child; if a child dies its
+// cases are re-run one per child and the crashing one is reported as
+// `<op> -> crash:<panic message>` (the child announces each op on stderr before
+// it calls the real code).  Every case draws from its own PRNG seeded by a
+// value taken from the main PRNG, so parent and child generate the same case.
+var childKind string
+var childSeeds []int64
+
+func announce(op string) {
+	if childKind != "" {
+		fmt.Fprintln(os.Stderr, "C02OP\t"+op)
+	}
+}
+
+func batch(c *hlib.Ctx, kind string, n int, body func()) {
+	if childKind != "" {
+		if childKind != kind {
+			return
+		}
+		saved := c.Rng
+		for _, s := range childSeeds {
+			c.Rng = rand.New(rand.NewSource(s))
+			body()
+		}
+		c.Rng = saved
+		return
+	}
+	seeds := make([]int64, n)
+	for i := range seeds {
+		seeds[i] = c.Rng.Int63()
+	}
+	const size = 25
+	for lo := 0; lo < n; lo += size {
+		hi := lo + size
+		if hi > n {
+			hi = n
+		}
+		if !runChild(c, kind, seeds[lo:hi], false) {
+			for _, s := range seeds[lo:hi] {
+				runChild(c, kind, []int64{s}, true)
+			}
+		}
+	}
+}
+
+func runChild(c *hlib.Ctx, kind string, seeds []int64, final bool) bool {
+	strs := make([]string, len(seeds))
+	for i, s := range seeds {
+		strs[i] = strconv.FormatInt(s, 10)
+	}
+	ctx, cancel := context.WithTimeout(context.Background(), 600*time.Second)
+	defer cancel()
+	cmd := exec.CommandContext(ctx, os.Args[0], "-seed", "0", "-n", strconv.Itoa(c.N))
+	cmd.Env = append(os.Environ(), "C02_CHILD="+kind+":"+strings.Join(strs, ","))
+	var stdout, stderr bytes.Buffer
+	cmd.Stdout, cmd.Stderr = &stdout, &stderr
+	err := cmd.Run()
+	if err == nil {
+		for _, line := range strings.Split(stdout.String(), "\n") {
+			switch {
+			case line == "":
+			case strings.HasPrefix(line, "#stat "):
+				f := strings.SplitN(line, " ", 3)
+				if v, e := strconv.Atoi(f[2]); e == nil {
+					c.Stat(f[1], v)
+				}
+			case strings.HasPrefix(line, "#propfail "):
+				f := strings.SplitN(line, " ", 3)
+				c.PropFail(f[1], f[2])
+			case strings.HasPrefix(line, "#"):
+			default:
+				f := strings.Split(line, "\t")
+				if len(f) >= 3 {
+					c.EmitSite(f[0], f[1], f[2])
+				} else if len(f) == 2 {
+					c.Emit(f[0], f[1])
+				}
+			}
+		}
+		return true
+	}
+	if !final {
+		return false
+	}
+	op, msg := "", "exit:"+err.Error()
+	for _, line := range strings.Split(stderr.String(), "\n") {
+		if strings.HasPrefix(line, "C02OP\t") {
+			op = strings.TrimPrefix(line, "C02OP\t")
+		} else if msg[:5] == "exit:" && (strings.HasPrefix(line, "panic:") || strings.HasPrefix(line, "fatal error:")) {
+			msg = line
+		}
+	}
+	if ctx.Err() != nil {
+		msg = "timeout"
+	}
+	if op == "" {
+		op = fmt.Sprintf("c02 %s child-died-before-announcing-an-op seed=%s", kind, strs[0])
+	}
+	msg = strings.NewReplacer(" ", "_", "\t", "_").Replace(msg)
+	c.Stat("c02.crashed_children", 1)
+	c.Emit(op, "crash:"+msg)
+	return true
+}
+
 func run(c *hlib.Ctx) {
+	if spec := os.Getenv("C02_CHILD"); spec != "" {
+		f := strings.SplitN(spec, ":", 2)
+		childKind = f[0]
+		for _, s := range strings.Split(f[1], ",") {
+			v, _ := strconv.ParseInt(s, 10, 64)
+			childSeeds = append(childSeeds, v)
+		}
+	}
 	runMcVerts(c)
 	runMsVerts(c)
 	runMcSearch(c)
 	runMsSearch(c)
-	runBisect(c)
-	runDcIdx(c)
+	if childKind == "" {
+		runBisect(c)
+		runDcIdx(c)
+	}
 	runDc(c)
 }
 
@@ -167,6 +292,7 @@ func runMcVerts(c *hlib.Ctx) {
 		xs, ys, zs := model3d.VerifSpacer(s, delta)
 		bs := labels3(s, xs, ys, zs)
 		op := fmt.Sprintf("c02 mcv %d %d %d %s", len(xs), len(ys), len(zs), bitStr(bs))
+		announce(op)
 		c.Emit(op, withTimeout(func() string {
 			var m *model3d.Mesh
 			switch variant {
@@ -195,7 +321,7 @@ func runMcVerts(c *hlib.Ctx) {
 		}))
 	}
 	// exhaustive: all 256 single-cell configurations
-	for cfg := 0; cfg < 256; cfg++ {
+	for cfg := 0; cfg < 256 && childKind == ""; cfg++ {
 		bs := make([]bool, 8)
 		for i := range bs {
 			bs[i] = cfg&(1<<uint(i)) != 0
@@ -203,8 +329,10 @@ func runMcVerts(c *hlib.Ctx) {
 		v := &csg{kind: "vox", p: []float64{0, 0, 0, 1}, n: [3]int{2, 2, 2}, bits: bs}
 		emit(&solid3{v, model3d.XYZ(0, 0, 0), model3d.XYZ(1, 1, 1)}, 1, 0)
 	}
-	c.Stat("c02.mcv.exhaustive_cells", 256)
-	for i := 0; i < c.N; i++ {
+	if childKind == "" {
+		c.Stat("c02.mcv.exhaustive_cells", 256)
+	}
+	batch(c, "mcv", c.N, func() {
 		if c.Rng.Intn(3) != 0 {
 			n := [3]int{1 + c.Rng.Intn(5), 1 + c.Rng.Intn(5), 1 + c.Rng.Intn(5)}
 			d := []float64{1, 0.5, 0.25, 2}[c.Rng.Intn(4)]
@@ -222,7 +350,7 @@ func runMcVerts(c *hlib.Ctx) {
 			emit(&solid3{t, model3d.XYZ(0, 0, 0), model3d.XYZ(span, span, span)}, d, c.Rng.Intn(3))
 			c.Stat("c02.mcv.csg", 1)
 		}
-	}
+	})
 }
 
 func runMsVerts(c *hlib.Ctx) {
@@ -230,6 +358,7 @@ func runMsVerts(c *hlib.Ctx) {
 		xs, ys := model2d.VerifSpacer(s, delta)
 		bs := labels2(s, xs, ys)
 		op := fmt.Sprintf("c02 msv %d %d %s", len(xs), len(ys), bitStr(bs))
+		announce(op)
 		c.Emit(op, withTimeout(func() string {
 			var m *model2d.Mesh
 			switch variant {
@@ -255,7 +384,7 @@ func runMsVerts(c *hlib.Ctx) {
 			return fmt.Sprintf("n=%d side=%s %s", len(out), side, strings.Join(out, ";"))
 		}))
 	}
-	for cfg := 0; cfg < 16; cfg++ {
+	for cfg := 0; cfg < 16 && childKind == ""; cfg++ {
 		bs := make([]bool, 4)
 		for i := range bs {
 			bs[i] = cfg&(1<<uint(i)) != 0
@@ -263,7 +392,7 @@ func runMsVerts(c *hlib.Ctx) {
 		v := &csg{kind: "vox", p: []float64{0, 0, 0, 1}, n: [3]int{2, 2, 1}, bits: bs}
 		emit(&solid2{v, model2d.XY(0, 0), model2d.XY(1, 1)}, 1, 0)
 	}
-	for i := 0; i < c.N; i++ {
+	batch(c, "msv", c.N, func() {
 		if c.Rng.Intn(3) != 0 {
 			n := [3]int{1 + c.Rng.Intn(7), 1 + c.Rng.Intn(7), 1}
 			d := []float64{1, 0.5, 0.25, 2}[c.Rng.Intn(4)]
@@ -280,7 +409,7 @@ func runMsVerts(c *hlib.Ctx) {
 			emit(&solid2{t, model2d.XY(0, 0), model2d.XY(span, span)}, d, c.Rng.Intn(3))
 			c.Stat("c02.msv.csg", 1)
 		}
-	}
+	})
 }
 
 // nearCheck evaluates the refinement claim directly on the implementation's
@@ -333,7 +462,7 @@ func nearCheck(p []float64, axes [][]float64, delta float64, iters int, contains
 }
 
 func runMcSearch(c *hlib.Ctx) {
-	for i := 0; i < c.N; i++ {
+	batch(c, "mcs", c.N, func() {
 		var t *csg
 		var span float64
 		deltas := []float64{1, 0.5, 0.25}
@@ -368,6 +497,7 @@ func runMcSearch(c *hlib.Ctx) {
 		interior := c.Rng.Intn(2)
 		op := fmt.Sprintf("c02 mcs %d %d %s %s %s %s %d %d %d %s", iters, interior,
 			hlib.RatStr(xs[0]), hlib.RatStr(ys[0]), hlib.RatStr(zs[0]), hlib.RatStr(delta), len(xs), len(ys), len(zs), t)
+		announce(op)
 		c.Emit(op, withTimeout(func() string {
 			var m *model3d.Mesh
 			var in *model3d.CoordMap[model3d.Coord3D]
@@ -413,7 +543,7 @@ func runMcSearch(c *hlib.Ctx) {
 			})
 			return fmt.Sprintf("n=%d side=%s near=%s in=%s %s", len(out), side, near, inOK, strings.Join(out, ";"))
 		}))
-	}
+	})
 }
 
 func max3(n [3]int) int {
@@ -428,7 +558,7 @@ func max3(n [3]int) int {
 }
 
 func runMsSearch(c *hlib.Ctx) {
-	for i := 0; i < c.N; i++ {
+	batch(c, "mss", c.N, func() {
 		var t *csg
 		var span float64
 		maxIters := 12
@@ -468,6 +598,7 @@ func runMsSearch(c *hlib.Ctx) {
 		xs, ys := model2d.VerifSpacer(s, delta)
 		op := fmt.Sprintf("c02 mss %d %s %s %s %d %d %s", iters,
 			hlib.RatStr(xs[0]), hlib.RatStr(ys[0]), hlib.RatStr(delta), len(xs), len(ys), t)
+		announce(op)
 		c.Emit(op, withTimeout(func() string {
 			var m *model2d.Mesh
 			if c.Rng.Intn(2) == 0 {
@@ -493,7 +624,7 @@ func runMsSearch(c *hlib.Ctx) {
 			side := sideCheck(pts, [][]float64{xs, ys}, func(i []int) bool { return bs[i[0]+len(xs)*i[1]] })
 			return fmt.Sprintf("n=%d side=%s near=%s %s", len(out), side, near, strings.Join(out, ";"))
 		}))
-	}
+	})
 }
 
 // shift translates a csg tree in x/y (dyadic, exact).
